@@ -1537,7 +1537,9 @@ class BinopMisaligned(Op):
     @staticmethod
     def flags(ins, args, out):
         fa, fb = ins[0][1], ins[1][1]
-        return Flags(ordered=True, indexed=True, layout=False, rowset="", pandas_ok=fa.pandas_ok and fb.pandas_ok, srcs=tuple(sorted(set(fa.srcs) | set(fb.srcs))))
+        # with unknown divisions the operands are aligned by a shuffle on the index: the row order is unspecified then
+        # (the labels are unique by the precondition, so the unordered comparison loses nothing)
+        return Flags(ordered=False, indexed=True, layout=False, rowset="", pandas_ok=fa.pandas_ok and fb.pandas_ok, srcs=tuple(sorted(set(fa.srcs) | set(fb.srcs))))
 
 
 # ------------------------------------------------------------------ second batch of operators (session 2)
